@@ -319,7 +319,7 @@ PROPS.update(PROPS_THREADS)
 EXTERNAL.update(EXTERNAL_THREADS)
 
 # properties whose theorem files are still being proved are not claimed yet
-for _p in ('C16', 'C17'):
+for _p in ():
     PROPS[_p]['claimed'] = False
 
 # ------------------------------------------------------------------ translated constants (supplementary source tie)
